@@ -511,6 +511,27 @@ class Unit:
     def __deepcopy__(self, memodict=None):
         return self.copy(deep=True)
 
+    def __copy__(self):
+        return self.copy()
+
+    def __reduce__(self):
+        """Pickle reduction method
+
+        Like for unyt_array, the registry is stored as its lookup table and
+        rebuilt on load, so that the dimensions of the restored unit are
+        expressed with unyt's dimension singletons.
+        """
+        return (
+            _unit_from_pickle,
+            (
+                self.expr,
+                self.base_value,
+                self.base_offset,
+                self.dimensions,
+                self.registry.lut,
+            ),
+        )
+
     #
     # End unit operations
     #
@@ -731,6 +752,20 @@ class Unit:
         expr = self.expr
         self.expr = _cancel_mul(expr, self.registry)
         return self
+
+
+def _unit_from_pickle(expr, base_value, base_offset, dimensions, lut):
+    from unyt.unit_registry import (
+        UnitRegistry,
+        _correct_old_unit_registry,
+        _use_dimension_singletons,
+    )
+
+    registry = UnitRegistry(
+        lut=_correct_old_unit_registry(lut), add_default_symbols=False
+    )
+    dimensions = _use_dimension_singletons(dimensions)
+    return Unit(expr, base_value, base_offset, dimensions, registry)
 
 
 def _factor_pairs(expr):
